@@ -305,6 +305,21 @@ def main_for(chk: Check, pid: str):
         chk.violation(clause, key, {"history": r["shape"], "events": r["events"]})
     for r in records:
         chk.distinct.add((r["opt"], r["shape"]))
+    if pid in ("C07", "C08"):
+        # the same relation on every serial run of the run corpus (all task families / configurations / scales):
+        # C07.repro = a second fresh instance differs; C08.reuse = a third run on that used instance differs
+        from . import corpus as _corpus
+        v = _corpus.corpus(chk.tier, chk.seed)
+        crecs = {r["id"]: r for r in v["records"]}
+        serial = [r for r in v["records"] if r["mode"] == "serial" and r["completed"]]
+        for rid, clause in v["bad"]:
+            if clause.startswith(prefix):
+                chk.violation(clause, {"optimizer": crecs[rid]["opt"]}, {"run": crecs[rid]["spec"], "rerun_exception": crecs[rid].get("rerun_exception")})
+        chk.traces += len(serial)
+        chk.evaluations += 2 * len(serial)
+        chk.extra["corpus_runs_repeated"] = len(serial)
+        for r in serial:
+            chk.distinct.add((r["opt"], "corpus", r["encoding"], r["dir"], r["mc"]))
     chk.extra["histories_from_tlc"] = len(hs)
     chk.extra["covering_subset"] = len(cov)
     chk.extra["replayed_histories"] = len(records)
